@@ -1,8 +1,8 @@
 #!/bin/sh
-# usage: ingest_mutant.sh <id> <A|B> <k>   -- confirm /tmp/mut-<id>-out/<A|B> in a scratch worktree (demo passes clean, fails patched,
+# usage: [MUT_SUFFIX=r3] ingest_mutant.sh <id> <A|B> <k>   -- confirm /tmp/mut-<id>-out/<A|B> in a scratch worktree (demo passes clean, fails patched,
 # repository suite passes patched), keep it as /verif/seeded/<id>-M<k>/ and run the check of <id> against it
 id="$1"; ab="$2"; k="$3"
-src=/tmp/mut-$id-out/$ab
+src=/tmp/mut-$id${MUT_SUFFIX}-out/$ab
 [ -f "$src/patch.diff" ] || { echo "$id-$ab: no patch"; exit 2; }
 wt=/tmp/wt-ing-$id-$ab
 git -C /repo worktree add -q --detach $wt HEAD || exit 2
